@@ -13,12 +13,24 @@ import json
 import engine as E
 from engine import coq_str, coq_list, coq_bool, coq_nat, coq_z
 
-RULE = ("operation traces (length 6-40) over 4 users x 4 clients with identifiers from a hostile alphabet "
+RULE = ("operation traces (10-56 draws, each 1-4 operations) over 4 users x 4 clients with identifiers from a hostile alphabet "
         "(';', ';;', ':', digits mimicking length prefixes, whitespace, unicode, empty); ops = add_grant / "
-        "revoke_sub_tree(level) / delete(path at every depth) / remove_branch / flush; a case is one trace, "
-        "non-trivial when it contains at least one accepted add_grant and one delete or revoke; plus pure "
-        "codec cases for lv_pack / lv_unpack / branch_key / unpack_branch_key / int()")
-ASSUMPTIONS = ["Fernet (cryptography) is an authenticated encryption: decrypt(encrypt(m)) = m",
+        "revoke_sub_tree(level) and remove_session / remove_branch THROUGH AN IDENTIFIER (one used before in a query or "
+        "another operation, a second identifier of the same path, a fresh one, a tampered one; identifiers of user, "
+        "client, grant level and of paths that are not stored) / delete(path at every depth) / flush / the READ-ONLY "
+        "queries interleaved and repeated (sm[id], get, get_user_info, get_node_info by level and by node_type, "
+        "get_grant, get_client_session_info, get_user_session_info, client_session_is_revoked, get_grant_argument, "
+        "branch_info with and without selection, get_session_info, get_subordinates, grants by id and by path, "
+        "get_authentication_events, find_token, decrypt_branch_id / decrypt_session_id, encrypted_branch_id); lists and "
+        "dicts handed back by a query are emptied / scribbled on by the caller; after EVERY operation the whole database "
+        "is snapshotted and EVERY identifier handed out so far is resolved again (decrypt -> path, sm[id] -> node); "
+        "a case is one trace, non-trivial when it contains an accepted add_grant, a delete or revoke and a query; plus "
+        "pure codec cases for lv_pack / lv_unpack / branch_key / unpack_branch_key / int()")
+ASSUMPTIONS = ["the encrypter under a branch id (cryptojwt's FernetEncrypter over cryptography's Fernet, an authenticated "
+               "encryption) hands back the plaintext up to trailing blanks: decrypt(encrypt(m)) = rstrip_blanks(m + blanks) - it "
+               "pads with U+0020 and strips every trailing U+0020; the library's framing lv_pack(rnd, key, '') makes that "
+               "harmless (theorem C14_sid_resolves_through_encrypter); an identifier that does not resolve to the path it was "
+               "minted for because of it is reported as id-trailing-space and not used further in the history",
                "uuid1().hex grant ids are fresh and contain no ';'"]
 
 EXC = {"ValueError": "ValueError", "KeyError": "KeyError", "AttributeError": "AttributeError",
@@ -59,25 +71,23 @@ def coq_op(op):
 
 
 IDS_OK = ["diana", "u2", "client_1", "c", "x:y", "3:abc", "a;b", " lead", "trail ", "new\nline", "åäö", "0", "a:;:b",
-          ";lead", ";a;b", "dian", "client_12", ""]    # the empty identifier (default of create_session); a single ';' at the start is legal; string-prefix relations
+          ";lead", ";a;b", "dian", "client_12", "", " ", "end  "]    # the empty identifier (default of create_session); a single ';' at the start is legal; string-prefix relations
 IDS_BAD = ["a;;b", "semi;", ";;", "x;;;y", ";"]
 
+POOL_CAP = 30          # identifiers that are re-resolved after every operation
+LEVEL_CLASS = {1: "UserSessionInfo", 2: "ClientSessionInfo", 3: "Grant"}
+NODE_TYPES = ["user", "client", "grant"]
 
-def gen_trace(rng, n, hostile):
-    users = rng.sample(IDS_OK, 3) + ([rng.choice(IDS_BAD)] if hostile else [])
-    clients = rng.sample(IDS_OK, 3) + ([rng.choice(IDS_BAD)] if hostile else [])
-    ops = []
-    for _ in range(n):
-        r = rng.random()
-        if r < 0.45:
-            ops.append(("add", rng.choice(users), rng.choice(clients)))
-        elif r < 0.62:
-            ops.append(("revoke", rng.choice([None, None, 0, 1, 2, 3, 5])))
-        elif r < 0.95:
-            ops.append(("delete", rng.choice([1, 2, 3, 3, 3]), rng.random() < 0.25))
-        else:
-            ops.append(("flush",))
-    return users, clients, ops
+
+def exc_name(e):
+    n = type(e).__name__
+    if n == "InvalidBranchID":
+        return n
+    return EXC.get(n, "TypeError")
+
+
+def coq_exc(n):
+    return "(Refused 1)" if n == "InvalidBranchID" else n
 
 
 def structural_oracle(sm, ctx, trace_rec):
@@ -101,120 +111,238 @@ def structural_oracle(sm, ctx, trace_rec):
                 ctx.violation("foreign-child", "node %r lists %r which is not below it" % (k, s), trace_rec)
 
 
-def run_trace(ctx, server, rng, n, hostile):
-    sm = server.context.session_manager
-    sm.flush()
-    users, clients, plan = gen_trace(rng, n, hostile)
-    live = []        # (sid, path, grant object)
-    all_paths = []
-    trace = []       # (op for model, out, snapshot)
-    rec = {"users": users, "clients": clients, "ops": []}
-    sid_cases = []
-    for p in plan:
-        before = {k: (g, i, tuple(s), r) for k, g, i, s, r in snap(sm)}
-        kind = p[0]
-        out = "ok"
-        if kind == "add":
-            u, c = p[1], p[2]
-            gid = "x"
-            try:
-                sid = sm.add_grant([u, c])
-                plain = sm.crypt.decrypt(base64.b64decode(sid)).decode()
-                path = sm.decrypt_branch_id(sid)
-                gid = path[-1] if len(path) == 3 else "x"
-                grant = sm[sid]
-                live.append((sid, [u, c, gid], grant))
-                all_paths.append([u, c, gid])
-                # oracle: resolves to exactly what it was created for
-                if path != [u, c, gid] or len(path) != 3:
-                    ctx.violation("sid-resolution", "session id created for %r resolves to %r" % ([u, c], path), rec)
-                from idpyoidc.server.util import lv_unpack
-                rnd = lv_unpack(plain)[0]
-                sid_cases.append(("(%s, %s, %s)" % (coq_str(rnd), coq_list([coq_str(x) for x in [u, c, gid]], "pystr"), coq_str(plain)),
-                                  {"sid_plain": plain, "path": [u, c, gid]}))
-            except Exception as e:
-                out = EXC.get(type(e).__name__, "TypeError")
-            op = ("add", u, c, gid)
-        elif kind == "revoke":
-            if not all_paths:
-                continue
-            path = rng.choice(all_paths)
-            try:
-                bid = sm.encrypted_branch_id(*path)
-                sm.revoke_sub_tree(bid, p[1])
-            except Exception as e:
-                out = EXC.get(type(e).__name__, "TypeError")
-            op = ("revoke", path, p[1])
-        elif kind == "delete":
-            depth, odd = p[1], p[2]
-            odd = odd or not all_paths
-            if odd:
-                path = [rng.choice(users + ["nobody"]), rng.choice(clients + ["noclient"]), "nogrant"][:depth]
-            else:
-                path = rng.choice(all_paths)[:depth]
-            alias = False
-            if all_paths and rng.random() < 0.12:
-                # an identifier that spells the stored key of somebody else's inner node ("user;;client")
-                q = rng.choice(all_paths)
-                j = rng.choice([2, 3])
-                path = [";;".join(q[:j])] + (q[j:] if rng.random() < 0.5 else [])
-                alias = odd = True
-                ctx.count("delete:alias-of-inner-key")
-            try:
-                if depth == 3 and not odd and rng.random() < 0.5:
-                    sm.remove_branch(sm.encrypted_branch_id(*path))
-                else:
-                    sm.delete(path)
-            except Exception as e:
-                out = EXC.get(type(e).__name__, "TypeError")
-            op = ("delete", path)
+def node_snap(k, n):
+    from idpyoidc.server.session.grant import Grant
+    from idpyoidc.server.session.info import NodeInfo
+    if isinstance(n, Grant):
+        return (k, True, "", [], bool(n.revoked))
+    if isinstance(n, NodeInfo):
+        return (k, False, n.id, list(n.subordinate), bool(n.revoked))
+    return ("<not a node: %s>" % type(n).__name__, False, "", [], False)
+
+
+def deep(sm):
+    """everything the database holds, for the read-only check: the exported state, and which object sits where"""
+    return (json.dumps(sm.dump(), sort_keys=True, default=str), tuple((k, id(v)) for k, v in sm.db.items()))
+
+
+class _Capped:
+    """the driver's view of ctx inside one history: the first violations of a history are recorded in full, the
+    rest only counted (one broken identifier fails every later re-resolution of the history)"""
+    CAP = 6
+
+    def __init__(self, ctx):
+        self._ctx, self._n = ctx, {}
+
+    def __getattr__(self, name):
+        return getattr(self._ctx, name)
+
+    def violation(self, sig, what, case):
+        self._n[sig] = self._n.get(sig, 0) + 1
+        if self._n[sig] <= self.CAP:
+            self._ctx.violation(sig, what, case)
         else:
-            sm.flush()
-            op = ("flush",)
+            self._ctx.count("violations-not-recorded-in-full:" + sig)
+
+
+class TraceRun:
+    """One history on the real SessionManager.  Operations: add_grant, revoke_sub_tree / remove_branch through an
+    identifier (an identifier used before, or a fresh one), delete(path), flush, and the read-only queries through
+    a path or an identifier of any level.  After EVERY operation: whole-database snapshot, and every identifier
+    handed out so far is resolved again (decrypt_branch_id and sm[id])."""
+
+    def __init__(self, ctx, server, rng, n, hostile, scribble):
+        self.ctx, self.rng, self.n = _Capped(ctx), rng, n
+        self.scribble = scribble    # the caller empties / appends to every list or dict a query hands back
+        self.sm = server.context.session_manager
+        self.sm.flush()
+        self.users = rng.sample(IDS_OK, 3) + ([rng.choice(IDS_BAD)] if hostile else [])
+        self.clients = rng.sample(IDS_OK, 3) + ([rng.choice(IDS_BAD)] if hostile else [])
+        self.pool = []          # identifiers handed out: {bid, plain, path, how, grant}
+        self.live = []          # (sid, path, grant object) of add_grant
+        self.all_paths = []
+        self.steps = []         # (xop, out, snapshot, resolution vector)
+        self.rec = {"users": self.users, "clients": self.clients,
+                    "after_every_op": "every identifier handed out so far is resolved again: decrypt_branch_id(id), sm[id]",
+                    "caller_modifies_returned_lists": scribble, "ops": []}
+        self.sid_cases = []
+        self.bad_id = None
+
+    # ---------------------------------------------------------------- identifiers
+    def plain_of(self, bid):
+        return self.sm.crypt.decrypt(base64.b64decode(bid)).decode()
+
+    def register(self, bid, path, how, grant=None, pooled=True):
+        from idpyoidc.server.util import lv_unpack
+        plain = self.plain_of(bid)
+        e = {"bid": bid, "plain": plain, "path": list(path), "how": how, "grant": grant, "n": len(self.pool) if pooled else None}
+        if pooled:
+            self.pool.append(e)
+        rnd = lv_unpack(plain)[0]
+        self.sid_cases.append(("(%s, %s, %s)" % (coq_str(rnd), coq_list([coq_str(x) for x in path], "pystr"), coq_str(plain)),
+                               {"sid_plain": plain, "path": list(path)}))
+        return e
+
+    def describe_target(self, t):
+        if t[0] == "path":
+            return {"path": t[1]}
+        if t[0] == "id":
+            return {"id_no": t[1]["n"], "issued_for": t[1]["path"], "issued_by": t[1]["how"]}
+        return {"id": "tampered"}
+
+    def mint(self, path):
+        """encrypted_branch_id(*path) as an operation of the history (read-only); None when refused"""
+        before = self.before()
+        sm = self.sm
+        try:
+            bid = sm.encrypted_branch_id(*path)
+            back = list(sm.decrypt_branch_id(bid))
+            if back != list(path) and path[-1].endswith(" ") and back == list(path[:-1]) + [path[-1].rstrip(" ")]:
+                # the encryption layer is not the identity on plaintexts that end in U+0020 (cryptojwt's FernetEncrypter
+                # pads with spaces and strips them): outside the model's assumption decrypt(encrypt(m)) = m.  Reported
+                # under its own signature; the identifier is not used further.
+                self.ctx.violation("id-trailing-space", "encrypted_branch_id(*%r) hands out an identifier that resolves to %r"
+                                   % (list(path), back), self.rec)
+                self.ctx._ctx.unmodelled += 1
+                self.ctx.count("mint:trailing-space")
+                return None
+            e = self.register(bid, path, "encrypted_branch_id", pooled=len(self.pool) < POOL_CAP)
+            from idpyoidc.server.util import lv_unpack
+            out = ("ok", lv_unpack(e["plain"])[1:2], [])      # the key the identifier carries
+        except Exception as err:
+            e, out = None, ("err", exc_name(err))
+        self.finish(("query", ("path", list(path)), ("mint",)), out, before, "encrypted_branch_id", readonly=True)
+        return e
+
+    def id_for(self, path, fresh_p=0.3):
+        """an identifier of the path: one used before, or a fresh one"""
+        have = [e for e in self.pool if e["path"] == list(path)]
+        if have and self.rng.random() >= fresh_p:
+            return self.rng.choice(have)
+        return self.mint(path)
+
+    # ---------------------------------------------------------------- bookkeeping around one operation
+    def before(self):
+        return ({k: (g, i, tuple(s), r) for k, g, i, s, r in snap(self.sm)}, deep(self.sm))
+
+    def resolve_all(self, rec_op):
+        """every identifier handed out so far: decrypt -> path, sm[id] -> node.  The returned path list belongs to
+        the caller: it is emptied after use."""
+        sm, ctx = self.sm, self.ctx
+        idmap = {id(v): k for k, v in sm.db.items()}
+        vec = []
+        for e in self.pool:
+            path, key = e["path"], ";;".join(e["path"])
+            try:
+                ret = sm.decrypt_branch_id(e["bid"])
+                got = list(ret)
+                if self.scribble:
+                    ret.clear()
+                dec = ("ok", got)
+                if got != path:
+                    ctx.violation("sid-resolution", "identifier no %d issued for %r (%s) resolves to %r after %r"
+                                  % (e["n"], path, e["how"], got, rec_op), self.rec)
+            except Exception as err:
+                dec = ("err", exc_name(err))
+                ctx.violation("sid-resolution", "identifier no %d issued for %r no longer decrypts (%r) after %r"
+                              % (e["n"], path, err, rec_op), self.rec)
+            try:
+                node = sm[e["bid"]]
+                k = idmap.get(id(node), "<not stored>")
+                res = ("ok", node_snap(k, node))
+                if key not in sm.db:
+                    ctx.violation("sid-resolution", "identifier no %d issued for %r: its node is gone but sm[id] gives node %r after %r"
+                                  % (e["n"], path, k, rec_op), self.rec)
+                elif node is not sm.db[key]:
+                    ctx.violation("sid-resolution", "identifier no %d issued for %r: sm[id] gives the node stored at %r after %r"
+                                  % (e["n"], path, k, rec_op), self.rec)
+                elif type(node).__name__ != LEVEL_CLASS.get(len(path)):
+                    ctx.violation("sid-resolution", "identifier no %d issued for the %d-level path %r gives a %s"
+                                  % (e["n"], len(path), path, type(node).__name__), self.rec)
+                elif e["grant"] is not None and node is not e["grant"]:
+                    ctx.violation("sid-resolution", "session id no %d of %r no longer gives the grant it was created with"
+                                  % (e["n"], path), self.rec)
+            except Exception as err:
+                res = ("err", exc_name(err))
+                if key in sm.db:
+                    ctx.violation("sid-resolution", "identifier no %d issued for %r: the node is stored but sm[id] raises %r after %r"
+                                  % (e["n"], path, err, rec_op), self.rec)
+                elif not isinstance(err, KeyError):
+                    ctx.violation("sid-resolution", "identifier no %d issued for the removed %r: sm[id] raises %r, not KeyError"
+                                  % (e["n"], path, err), self.rec)
+            vec.append((dec, res))
+        return vec
+
+    def finish(self, xop, out, before, api, readonly, op=None):
+        """xop: the operation for the model; op: the old-style (op, path..) tuple of a mutating operation"""
+        sm, ctx, rec = self.sm, self.ctx, self.rec
+        before, before_deep = before
         s = snap(sm)
-        trace.append((op, out, s))
-        rec["ops"].append({"op": op, "out": out, "n_nodes": len(s)})
+        rec_op = [api] + ([self.describe_target(xop[1])] if xop[0] in ("query", "revoke_id", "remove_id") else []) + \
+                 ([list(op[1:])] if op is not None and xop[0] == "op" else []) + ([xop[2]] if xop[0] == "revoke_id" else [])
+        rec["ops"].append({"op": rec_op, "out": out if out[0] == "err" else "ok", "n_nodes": len(s)})
         after = {k: (g, i, tuple(sb), r) for k, g, i, sb, r in s}
+        ctx.count("api:" + api)
         # ---- property oracle (independent of the model)
         structural_oracle(sm, ctx, rec)
-        if op[0] != "flush":
-            root = op[1] if op[0] == "add" else (op[1][0] if op[1] else None)
-            for k in set(before) | set(after):
-                kr = k.split(";;")[0]
-                if kr != root and before.get(k) != after.get(k):
-                    ctx.violation("frame", "op %r on branch %r changed node %r of another user" % (op, root, k), rec)
-        if op[0] == "delete" and out == "ok":
-            key = ";;".join(op[1])
-            if key in before:
-                gone = set(before) - set(after)
-                sub = {k for k in before if k == key or k.startswith(key + ";;")}
-                # ancestors that became childless may go too
-                anc = set()
-                parts = op[1]
-                for i in range(len(parts) - 1, 0, -1):
-                    pk = ";;".join(parts[:i])
-                    kids = [x for x in before.get(pk, (0, 0, (), 0))[2] if x not in sub and x not in anc]
-                    if pk in before and not kids:
-                        anc.add(pk)
-                    else:
-                        break
-                if gone != sub | anc:
-                    ctx.violation("remove-exact", "delete %r removed %r, expected subtree %r plus childless ancestors %r"
-                                  % (op[1], sorted(gone), sorted(sub), sorted(anc)), rec)
-            elif before != after:
-                ctx.violation("remove-exact", "delete of a missing path %r changed the database" % (op[1],), rec)
-        if op[0] == "revoke" and out == "ok":
-            lvl = op[2]
-            pre = op[1] if lvl is None else op[1][:lvl + 1]
-            key = ";;".join(pre)
-            for k in after:
-                inside = k == key or k.startswith(key + ";;")
-                if inside and not after[k][3]:
-                    ctx.violation("revoke-cascade", "node %r below revoked %r is not revoked" % (k, key), rec)
-                if not inside and before.get(k) != after.get(k):
-                    ctx.violation("frame", "revoke of %r changed %r" % (key, k), rec)
+        if readonly:
+            if deep(sm) != before_deep:
+                changed = sorted(k for k in set(before) | set(after) if before.get(k) != after.get(k))
+                ctx.violation("query-mutates", "read-only %s changed the database (nodes %r)" % (rec_op, changed), rec)
+        okout = "ok" if out[0] == "ok" else out[1]
+        if op is not None:
+            if op[0] != "flush":
+                root = op[1] if op[0] == "add" else (op[1][0] if op[1] else None)
+                for k in set(before) | set(after):
+                    kr = k.split(";;")[0]
+                    if kr != root and before.get(k) != after.get(k):
+                        ctx.violation("frame", "op %r on branch %r changed node %r of another user" % (op, root, k), rec)
+            if op[0] == "delete" and okout == "ok":
+                key = ";;".join(op[1])
+                if key in before:
+                    gone = set(before) - set(after)
+                    sub = {k for k in before if k == key or k.startswith(key + ";;")}
+                    # ancestors that became childless may go too
+                    anc = set()
+                    parts = op[1]
+                    for i in range(len(parts) - 1, 0, -1):
+                        pk = ";;".join(parts[:i])
+                        kids = [x for x in before.get(pk, (0, 0, (), 0))[2] if x not in sub and x not in anc]
+                        if pk in before and not kids:
+                            anc.add(pk)
+                        else:
+                            break
+                    if gone != sub | anc:
+                        ctx.violation("remove-exact", "delete %r removed %r, expected subtree %r plus childless ancestors %r"
+                                      % (op[1], sorted(gone), sorted(sub), sorted(anc)), rec)
+                    # what stays is what it was (ancestors lose the entry of the removed child, nothing else)
+                    for k in set(after):
+                        if k not in before:
+                            ctx.violation("remove-exact", "delete %r created node %r" % (op[1], k), rec)
+                        elif before[k] != after[k]:
+                            is_anc = key.startswith(k + ";;")
+                            b, a = before[k], after[k]
+                            if not (is_anc and (b[0], b[1], b[3]) == (a[0], a[1], a[3]) and
+                                    [x for x in b[2] if x not in gone] == list(a[2])):
+                                ctx.violation("remove-exact", "delete %r changed the surviving node %r: %r -> %r" % (op[1], k, b, a), rec)
+                elif before != after:
+                    ctx.violation("remove-exact", "delete of a missing path %r changed the database" % (op[1],), rec)
+            if op[0] == "revoke" and okout == "ok":
+                lvl = op[2]
+                pre = op[1] if lvl is None else op[1][:lvl + 1]
+                key = ";;".join(pre)
+                for k in after:
+                    inside = k == key or k.startswith(key + ";;")
+                    if inside and not after[k][3]:
+                        ctx.violation("revoke-cascade", "node %r below revoked %r is not revoked" % (k, key), rec)
+                    if not inside and before.get(k) != after.get(k):
+                        ctx.violation("frame", "revoke of %r changed %r" % (key, k), rec)
+                if set(after) != set(before):
+                    ctx.violation("frame", "revoke of %r added or removed nodes" % (key,), rec)
+            if op[0] in ("delete", "revoke") and okout != "ok" and before != after:
+                ctx.violation("frame", "refused %r (%s) changed the database" % (op, okout), rec)
         # every live session id still resolves to its own grant object (or is gone)
-        for sid, path, grant in live:
+        for sid, path, grant in self.live:
             key = ";;".join(path)
             if key in sm.db:
                 try:
@@ -222,13 +350,422 @@ def run_trace(ctx, server, rng, n, hostile):
                         ctx.violation("sid-resolution", "sid for %r resolves elsewhere" % (path,), rec)
                 except Exception as e:
                     ctx.violation("sid-resolution", "sid for %r no longer resolves: %r" % (path, e), rec)
-    nontrivial = any(t[0][0] == "add" and t[1] == "ok" for t in trace) and any(t[0][0] in ("delete", "revoke") for t in trace)
-    ctx.case_seen(rec, nontrivial)
-    for t in trace:
-        ctx.count("op:" + t[0][0])
-        ctx.count("out:" + t[1])
-    term = coq_list(["(%s, (%s, %s))" % (coq_op(o), coq_res_unit(out), coq_snap(s)) for o, out, s in trace])
-    return (term, rec), sid_cases
+        vec = self.resolve_all(rec_op)
+        self.steps.append((xop, out, s, vec, op))
+
+    # ---------------------------------------------------------------- mutating operations
+    def op_add(self):
+        from idpyoidc.server.authn_event import create_authn_event
+        sm, rng = self.sm, self.rng
+        u, c = rng.choice(self.users), rng.choice(self.clients)
+        before = self.before()
+        gid, out = "x", ("ok", [], [])
+        try:
+            sid = sm.add_grant([u, c], authentication_event=create_authn_event(u))
+            path = sm.decrypt_branch_id(sid)
+            gid = path[-1] if len(path) == 3 else "x"
+            grant = sm[sid]
+            self.live.append((sid, [u, c, gid], grant))
+            self.all_paths.append([u, c, gid])
+            # oracle: resolves to exactly what it was created for
+            if path != [u, c, gid] or len(path) != 3:
+                self.ctx.violation("sid-resolution", "session id created for %r resolves to %r" % ([u, c], path), self.rec)
+            self.register(sid, [u, c, gid], "add_grant", grant=grant, pooled=len(self.pool) < POOL_CAP + 10)
+        except Exception as e:
+            out = ("err", exc_name(e))
+        op = ("add", u, c, gid)
+        self.finish(("op", op), out, before, "add_grant", readonly=False, op=op)
+
+    def op_revoke(self):
+        rng, sm = self.rng, self.sm
+        if not self.all_paths:
+            return
+        lvl = rng.choice([None, None, 0, 1, 2, 3, 5])
+        path = rng.choice(self.all_paths)
+        if rng.random() < 0.4:
+            path = path[:rng.choice([1, 2])]        # an identifier of the user or the client node
+        if rng.random() < 0.06:
+            tgt, bid = ("bad",), self.tampered()
+        else:
+            e = self.id_for(path)
+            if e is None:
+                return
+            tgt, bid = ("id", e), e["bid"]
+        before = self.before()
+        out = ("ok", [], [])
+        try:
+            sm.revoke_sub_tree(bid, lvl)
+        except Exception as err:
+            out = ("err", exc_name(err))
+        op = ("revoke", list(path), lvl) if tgt[0] == "id" else None
+        self.finish(("revoke_id", tgt, lvl), out, before, "revoke_sub_tree", readonly=(op is None), op=op)
+
+    def op_delete(self):
+        rng, sm = self.rng, self.sm
+        depth, odd = rng.choice([1, 2, 3, 3, 3]), rng.random() < 0.25
+        odd = odd or not self.all_paths
+        if odd:
+            path = [rng.choice(self.users + ["nobody"]), rng.choice(self.clients + ["noclient"]), "nogrant"][:depth]
+        else:
+            path = rng.choice(self.all_paths)[:depth]
+        if self.all_paths and rng.random() < 0.12:
+            # an identifier that spells the stored key of somebody else's inner node ("user;;client")
+            q = rng.choice(self.all_paths)
+            j = rng.choice([2, 3])
+            path = [";;".join(q[:j])] + (q[j:] if rng.random() < 0.5 else [])
+            odd = True
+            self.ctx.count("delete:alias-of-inner-key")
+        by_id = rng.random() < (0.5 if not odd else 0.3)
+        e = self.id_for(path) if by_id else None
+        if by_id and e is None and rng.random() < 0.3:
+            e = "bad"
+        before = self.before()
+        out = ("ok", [], [])
+        op = ("delete", list(path))
+        try:
+            if e == "bad":
+                op = None
+                sm.remove_branch(self.tampered())
+            elif e is not None:
+                (sm.remove_session if rng.random() < 0.5 else sm.remove_branch)(e["bid"])
+            else:
+                sm.delete(path)
+        except Exception as err:
+            out = ("err", exc_name(err))
+        if e == "bad":
+            self.finish(("remove_id", ("bad",)), out, before, "remove_branch", readonly=True)
+        elif e is not None:
+            self.finish(("remove_id", ("id", e)), out, before, "remove_session", readonly=False, op=op)
+        else:
+            self.finish(("op", op), out, before, "delete", readonly=False, op=op)
+
+    def op_flush(self):
+        before = self.before()
+        self.sm.flush()
+        op = ("flush",)
+        self.finish(("op", op), ("ok", [], []), before, "flush", readonly=False, op=op)
+
+    def tampered(self):
+        if self.bad_id is None or self.rng.random() < 0.3:
+            src = self.rng.choice(self.pool)["bid"] if self.pool else base64.b64encode(b"gAAAAABnothing").decode()
+            i = self.rng.randrange(len(src) // 2, len(src) - 2)
+            self.bad_id = src[:i] + ("A" if src[i] != "A" else "B") + src[i + 1:]
+        return self.bad_id
+
+    # ---------------------------------------------------------------- read-only queries
+    def some_path(self):
+        rng = self.rng
+        r = rng.random()
+        if self.all_paths and r < 0.7:
+            return rng.choice(self.all_paths)[:rng.choice([1, 2, 2, 3])]
+        if self.all_paths and r < 0.8:
+            q = rng.choice(self.all_paths)
+            return q + ["extra"]
+        if self.all_paths and r < 0.88:
+            q = rng.choice(self.all_paths)
+            j = rng.choice([2, 3])
+            return [";;".join(q[:j])] + q[j:]
+        return [rng.choice(self.users + ["nobody"]), rng.choice(self.clients + ["noclient"]), "nogrant"][:rng.choice([1, 2, 3])]
+
+    def op_query(self):
+        rng, sm, ctx = self.rng, self.sm, self.ctx
+        r = rng.random()
+        if r < 0.08:
+            tgt = ("bad",)
+        elif r < 0.70:
+            if self.pool and rng.random() < 0.75:
+                tgt = ("id", rng.choice(self.pool))          # an identifier used before
+            else:
+                e = self.mint(self.some_path())              # an identifier of any level, a second identifier of a path
+                if e is None or e["n"] is None:
+                    return
+                tgt = ("id", e)
+        else:
+            tgt = ("path", [] if rng.random() < 0.04 else list(self.some_path()))
+        repeat = 1 if rng.random() < 0.6 else rng.choice([2, 3])     # the same question asked again
+        if tgt[0] == "path":
+            kind = rng.choice(["get", "get", "subs", "subs", "grants", "grants", "user_info"])
+            if kind == "user_info" and len(tgt[1]) != 1:
+                kind = "get"
+        else:
+            kind = rng.choice(["getitem", "getitem", "node_info", "node_info", "node_type", "typed", "typed", "branch_info",
+                               "session_info", "grants", "grants", "grants", "authn", "find_token", "decrypt", "decrypt",
+                               "scalar"])
+        lvl = rng.choice([0, 1, 2, 2, 3])
+        sel = rng.choice([[], [], [0], [1], [2], [0, 1], [1, 2], [2, 0]])
+        for _ in range(repeat):
+            self.one_query(tgt, kind, lvl, sel)
+
+    def one_query(self, tgt, kind, lvl, sel):
+        sm, ctx, rng = self.sm, self.ctx, self.rng
+        before = self.before()
+        idmap = {id(v): k for k, v in sm.db.items()}
+        bid = tgt[1]["bid"] if tgt[0] == "id" else (self.tampered() if tgt[0] == "bad" else None)
+        path = tgt[1] if tgt[0] == "path" else None
+
+        def nodes(objs):
+            return [node_snap(idmap.get(id(o), "<not stored>"), o) for o in objs]
+        expect = None          # oracle: keys of the nodes the answer must consist of (None: not judged)
+        issued = tgt[1]["path"] if tgt[0] == "id" else path
+        try:
+            if kind in ("getitem", "get", "user_info"):
+                q, api = ("get",), {"getitem": "__getitem__", "get": "get", "user_info": "get_user_info"}[kind]
+                node = sm[bid] if kind == "getitem" else (sm.get(path) if kind == "get" else sm.get_user_info(path[0]))
+                out = ("ok", [], nodes([node]))
+                expect = [";;".join(issued)] if issued else None
+            elif kind == "scalar":
+                # scalar questions about the node of the identifier; judged against the database itself
+                q, api = ("get",), "get_grant_argument"
+                val = sm.get_grant_argument(bid, "revoked")
+                node = sm[bid]
+                if val is not node.revoked:
+                    ctx.violation("query-answer", "get_grant_argument(id of %r, 'revoked') = %r but the node says %r"
+                                  % (issued, val, node.revoked), self.rec)
+                out = ("ok", [], nodes([node]))
+                expect = [";;".join(issued)]
+            elif kind in ("node_info", "node_type"):
+                q, api = ("nodeinfo", lvl, False), "get_node_info"
+                if kind == "node_type":
+                    lvl = min(lvl, 2)
+                    q = ("nodeinfo", lvl, False)
+                    ident, node = sm.get_node_info(bid, node_type=NODE_TYPES[lvl])
+                else:
+                    ident, node = sm.get_node_info(bid, level=lvl)
+                out = ("ok", [ident], nodes([node]))
+                expect = [";;".join(issued[:lvl + 1])]
+            elif kind == "typed":
+                lvl = min(lvl, 2)
+                q, api = ("nodeinfo", lvl, True), ["get_user_session_info", "get_client_session_info", "get_grant"][lvl]
+                node = getattr(sm, api)(bid)
+                if lvl == 1 and rng.random() < 0.5:
+                    if sm.client_session_is_revoked(bid) is not node.revoked:
+                        ctx.violation("query-answer", "client_session_is_revoked(id of %r) disagrees with the client node" % (issued,), self.rec)
+                out = ("ok", [], nodes([node]))
+                expect = [";;".join(issued[:lvl + 1])]
+            elif kind in ("branch_info", "session_info"):
+                if kind == "session_info":
+                    sel = []
+                q, api = ("branchinfo", sel), ("branch_info" if kind == "branch_info" else "get_session_info")
+                lv = [i for i in range(3) if not sel or i in sel]
+                info = sm.get_session_info(bid) if kind == "session_info" else sm.branch_info(bid, *[NODE_TYPES[i] for i in sel])
+                if info.get("branch_id") != bid or sorted(info) != sorted(["branch_id"] + [NODE_TYPES[i] for i in lv] + [NODE_TYPES[i] + "_id" for i in lv]):
+                    ctx.violation("query-answer", "%s(id of %r) has keys %r / another branch_id" % (api, issued, sorted(info)), self.rec)
+                out = ("ok", [info[NODE_TYPES[i] + "_id"] for i in lv], nodes([info[NODE_TYPES[i]] for i in lv]))
+                expect = [";;".join(issued[:i + 1]) for i in lv]
+                if self.scribble:
+                    info.clear()
+            elif kind == "subs":
+                q, api = ("subs",), "get_subordinates"
+                ret = sm.get_subordinates(path)
+                out = ("ok", [], nodes(ret))
+                expect = list(before[0][";;".join(path)][2]) if path and ";;".join(path) in before[0] else None
+                if self.scribble:
+                    ret.clear()
+            elif kind == "grants":
+                q, api = ("grants", tgt[0] != "path"), "grants"
+                if tgt[0] == "path":
+                    ret = sm.grants(path=path)
+                else:
+                    ret = sm.grants(bid) if rng.random() < 0.5 else sm.grants(branch_id=bid)
+                out = ("ok", [], nodes(ret))
+                # the grants of the very (user, client) the question is about
+                ck = ";;".join(issued[:2]) if tgt[0] != "path" and len(issued) == 3 else ";;".join(issued)
+                expect = [k for k, v in before[0].items() if v[0] and k.startswith(ck + ";;") and len(k.split(";;")) == len(ck.split(";;")) + 1]
+                if self.scribble:
+                    ret.clear()
+            elif kind == "authn":
+                q, api = ("authn",), "get_authentication_events"
+                evs = sm.get_authentication_events(session_id=bid)
+                owners = {id(v.authentication_event): v for v in sm.db.values() if getattr(v, "authentication_event", None) is not None}
+                out = ("ok", [], nodes([owners.get(id(ev), ev) for ev in evs]))
+                ck = ";;".join(issued[:2])
+                expect = [k for k, v in before[0].items() if v[0] and k.startswith(ck + ";;")]
+                if self.scribble:
+                    evs.clear()
+            elif kind == "find_token":
+                q, api = ("findtoken",), "find_token"
+                tok = sm.find_token(bid, "no-such-token-value")
+                out = ("ok", [], []) if tok is None else ("ok", ["<a token>"], [])
+            else:
+                q, api = ("decrypt",), "decrypt_branch_id"
+                ret = (sm.decrypt_session_id if rng.random() < 0.5 else sm.decrypt_branch_id)(bid)
+                out = ("ok", list(ret), [])
+                if list(ret) != issued:
+                    ctx.violation("sid-resolution", "identifier issued for %r decrypts to %r" % (issued, list(ret)), self.rec)
+                if self.scribble:
+                    ret.append("scribbled by the caller")
+        except Exception as err:
+            out = ("err", exc_name(err))
+            if tgt[0] == "id" and len(issued) == 3 and ";;".join(issued) in before[0] and kind not in ("node_info",):
+                # a session id whose grant is stored answers every question about its own branch
+                ctx.violation("sid-resolution", "%s through the session id of the stored grant %r raises %r" % (api, issued, err), self.rec)
+        if out[0] == "ok" and expect is not None and tgt[0] != "bad":
+            got = [n[0] for n in out[2]]
+            same = sorted(got) == sorted(expect) if kind in ("grants", "authn", "subs") else got == expect
+            if not same:
+                ctx.violation("query-answer", "%s asked through %r handed back the nodes %r, the nodes of that branch are %r"
+                              % (api, self.describe_target(tgt), got, expect), self.rec)
+        self.finish(("query", tgt, q), out, before, api, readonly=True)
+
+    # ---------------------------------------------------------------- one history
+    def run(self):
+        rng = self.rng
+        for _ in range(self.n):
+            r = rng.random()
+            if r < 0.28:
+                self.op_add()
+            elif r < 0.38:
+                self.op_revoke()
+            elif r < 0.56:
+                self.op_delete()
+            elif r < 0.59:
+                self.op_flush()
+            else:
+                self.op_query()
+        ctx = self.ctx
+        muts = [s for s in self.steps if s[4] is not None]
+        nontrivial = any(s[4][0] == "add" and s[1][0] == "ok" for s in muts) and any(s[4][0] in ("delete", "revoke") for s in muts) \
+            and any(s[0][0] == "query" for s in self.steps)
+        ctx.case_seen(self.rec, nontrivial)
+        for s in self.steps:
+            ctx.count("op:" + (s[4][0] if s[4] is not None else s[0][0]))
+            ctx.count("out:" + ("ok" if s[1][0] == "ok" else s[1][1]))
+        return self
+
+
+# ---------------------------------------------------------------------- Coq terms of a history (strings and repeated
+# sub-terms are emitted once per shard as Definitions: elaborating string literals is what makes coqc slow)
+class Interner:
+    def __init__(self):
+        self.names, self.order = {}, []
+
+    def share(self, text, ty, prefix):
+        n = self.names.get((ty, text))
+        if n is None:
+            n = "%s_%d" % (prefix, len(self.order))
+            self.names[(ty, text)] = n
+            self.order.append((n, ty, text))
+        return n
+
+    def s(self, string):
+        return self.share(coq_str(string), "pystr", "s")
+
+    def strs(self, l):
+        return coq_list([self.s(x) for x in l], "pystr")
+
+    def node(self, n):
+        k, g, i, subs, r = n
+        return self.share("(%s, (%s, %s, %s, %s))" % (self.s(k), coq_bool(g), self.s(i), self.strs(subs), coq_bool(r)), "snap_node", "n")
+
+    def nodes(self, l):
+        return self.share(coq_list([self.node(n) for n in l], "snap_node"), "list snap_node", "l")
+
+    def prelude(self):
+        return "".join("Definition %s : %s := %s.\n" % d for d in self.order)
+
+
+def coq_xtrace(I, tr):
+    def res(out, f):
+        return "(Ok %s)" % f(out) if out[0] == "ok" else "(Err %s)" % coq_exc(out[1])
+
+    def target(t):
+        if t[0] == "path":
+            return "(ByPath %s)" % I.strs(t[1])
+        if t[0] == "id":
+            return "(ById %s)" % I.s(t[1]["plain"])
+        return "ByBadId"
+
+    def qkind(q):
+        k = q[0]
+        if k == "nodeinfo":
+            return "(QNodeInfo %s %s)" % (coq_nat(q[1]), coq_bool(q[2]))
+        if k == "branchinfo":
+            return "(QBranchInfo %s)" % coq_list([coq_nat(i) for i in q[1]], "nat")
+        if k == "grants":
+            return "(QGrants %s)" % coq_bool(q[1])
+        return {"get": "QGet", "subs": "QSubs", "authn": "QAuthnEvents", "findtoken": "QFindToken", "decrypt": "QDecrypt",
+                "mint": "QMint"}[k]
+
+    def old_op(op):
+        t = op[0]
+        if t == "add":
+            return "(OAddGrant %s %s %s false)" % (I.s(op[1]), I.s(op[2]), I.s(op[3]))
+        if t == "revoke":
+            return "(ORevoke %s %s)" % (I.strs(op[1]), "None" if op[2] is None else "(Some %s)" % coq_nat(op[2]))
+        if t == "delete":
+            return "(ODelete %s)" % I.strs(op[1])
+        return "OFlush"
+
+    def xop(x):
+        if x[0] == "op":
+            return "(XOp %s)" % old_op(x[1])
+        if x[0] == "revoke_id":
+            return "(XRevokeId %s %s)" % (target(x[1]), "None" if x[2] is None else "(Some %s)" % coq_nat(x[2]))
+        if x[0] == "remove_id":
+            return "(XRemoveId %s)" % target(x[1])
+        return "(XQuery %s %s)" % (target(x[1]), qkind(x[2]))
+
+    def rvec(v):
+        dec, r = v
+        return I.share("(%s, %s)" % (res(dec, lambda d: I.strs(d[1])), res(r, lambda x: I.nodes([x[1]]))), "rvec", "r")
+
+    steps, old = [], []
+    for x, out, snp, vec, op in tr.steps:
+        ans = res(out, lambda o: "(%s, %s)" % (I.strs(o[1]), I.nodes(o[2])))
+        rv = I.share(coq_list([rvec(v) for v in vec], "rvec"), "list rvec", "v")
+        steps.append("(%s, (%s, %s, %s))" % (xop(x), ans, I.nodes(snp), rv))
+        if op is not None:
+            # the same history as the mutating operations alone see it (checked by the first checker, chk_trace)
+            old.append("(%s, (%s, %s))" % (old_op(op), "(Ok tt)" if out[0] == "ok" else "(Err %s)" % coq_exc(out[1]), I.nodes(snp)))
+    ids = coq_list([I.s(e["plain"]) for e in tr.pool], "pystr")
+    return "(%s, %s)" % (ids, coq_list(steps, "xstep_rec")), coq_list(old, "(op bool * (res unit * list snap_node))")
+
+
+def check_xtraces(ctx, runs, shard=10):
+    """chk_xtrace on the full histories and chk_trace on their mutating operations, by vm_compute"""
+    imp = ["Lib.Base", "Lib.PyStr", "Model.Lv", "Model.Db", "Model.DbCheck"]
+    jobs = []
+    for i in range(0, len(runs), shard):
+        part = runs[i:i + shard]
+        I = Interner()
+        terms = [coq_xtrace(I, t) for t in part]
+        ctx.shard_seq += 1
+        name = "%s_xtrace_%03d" % (ctx.prop, ctx.shard_seq)
+        body = I.prelude() + \
+            "Definition cases : list (list pystr * list xstep_rec) := [\n%s\n].\n" % ";\n".join(t[0] for t in terms) + \
+            "Definition ocases : list (list (op bool * (res unit * list snap_node))) := [\n%s\n].\n" % ";\n".join(t[1] for t in terms) + \
+            "Eval vm_compute in (bad_indices chk_xtrace cases).\nEval vm_compute in (bad_indices chk_trace ocases).\n"
+        jobs.append((name, body, part, terms))
+    from concurrent.futures import ThreadPoolExecutor
+
+    def go(job):
+        return job, ctx.coq_eval(job[0], imp, job[1])
+    with ThreadPoolExecutor(max_workers=min(E.NCPU, max(1, len(jobs)))) as ex:
+        results = list(ex.map(go, jobs))
+    for (name, body, part, terms), (rc, out, vals) in results:
+        if rc != 0 or len(vals) < 2:
+            ctx.broken.append("correspondence shard %s does not evaluate: %s" % (name, out.strip()[-600:]))
+            continue
+        try:
+            bad_x, bad_o = E.parse_nat_list(vals[0]), E.parse_nat_list(vals[1])
+        except ValueError as e:
+            ctx.broken.append("correspondence shard %s: %s" % (name, e))
+            continue
+        ctx.traces += 2 * len(part)
+        dvals = {}
+        if bad_x:
+            dbody = I_prelude_of(body) + "".join("Eval vm_compute in (xdiag (nth %d cases ([], []))).\n" % i for i in bad_x[:3])
+            drc, dout, dv = ctx.coq_eval(name + "_diag", imp, dbody)
+            dvals = dict(zip(bad_x[:3], dv))
+        for i in bad_x:
+            ctx.mismatch("model and implementation disagree (xtrace, %s[%d]): first differing step and what the model says there"
+                         % (name, i), part[i].rec, model=(dvals.get(i) or "")[:3000])
+        for i in bad_o:
+            ctx.mismatch("model and implementation disagree (trace of the mutating operations, %s[%d])" % (name, i), part[i].rec)
+
+
+def I_prelude_of(body):
+    return body[:body.index("Eval vm_compute")]
 
 
 def codec_cases(ctx, rng, n):
@@ -292,14 +829,16 @@ def run(ctx):
     import srv
     server = srv.make_server()
     rng = ctx.rng
-    ntr = 60 if ctx.quick else 1500
-    traces, sids = [], []
+    ntr = 90 if ctx.quick else 1500
+    import logging
+    logging.getLogger("idpyoidc.server.session.database").setLevel(logging.CRITICAL)   # tampered identifiers are logged as errors
+    runs, sids = [], []
     for i in range(ntr):
-        t, s = run_trace(ctx, server, rng, rng.randint(6, 40), hostile=(i % 3 == 0))
-        traces.append(t)
-        sids += s
+        t = TraceRun(ctx, server, rng, rng.randint(10, 56), hostile=(i % 3 == 0), scribble=(i % 2 == 1)).run()
+        runs.append(t)
+        sids += t.sid_cases
+    check_xtraces(ctx, runs)
     imp = ["Lib.Base", "Lib.PyStr", "Model.Lv", "Model.Db", "Model.DbCheck"]
-    ctx.coq_check_cases(imp, "list (op bool * (res unit * list snap_node))", "chk_trace", traces, shard=20, label="trace")
     ctx.coq_check_cases(imp, "pystr * list pystr * pystr", "chk_sid", sids, shard=400, label="sid")
     codec_cases(ctx, rng, 300 if ctx.quick else 5000)
 
